@@ -100,6 +100,11 @@ async def fault_case(ctx, case: dict) -> None:
             ctx.clause("fault-reported")
             if kind != "error":
                 problem("fault-not-reported", f"a write failed during the wake of node {n} but listen yielded normally")
+            elif transport.fault_class.startswith("foreign:"):
+                # the transport failed with something else than a TransportError (the MQTT client's RuntimeError when it is
+                # not connected, an OS error a third-party transport lets through): what escapes listen() is that
+                # transport's business - the commands not yet written still stay buffered
+                ctx.obs("foreign-transport-failure-reported-as:" + type(value).__name__)
             elif not isinstance(value, TransportError):
                 info = exc_info(value)
                 problem("fault-wrong-error", f"a failed write surfaced as {info['class']} (not a transport error)")
@@ -173,6 +178,18 @@ def cases(ctx):
                             yield {"version": version, "sends": sends, "wakes": wakes, "faults": list(faults),
                                    "reenter_after": reenter_after}
     ctx.exhaustive["fault-subsets-enumerated"] = count
+    # "the transport fails" also in ways outside the TransportError family: nothing not yet written may be dropped
+    from ..harness import FOREIGN_FAULTS
+
+    for version in ("2.0", "2.1", "2.2"):
+        for sends, wakes in itertools.product(SEND_SHAPES[:8], WAKE_SEQS[:6]):
+            universe = range(min(4, len(sends) * len(wakes)))
+            for size in (1, 2):
+                for faults in itertools.combinations(universe, size):
+                    if ctx.mine():
+                        count += 1
+                        yield {"version": version, "sends": sends, "wakes": wakes, "faults": list(faults),
+                               "fault_class": FOREIGN_FAULTS[count % len(FOREIGN_FAULTS)]}
     # long histories: the same command fails at MANY consecutive wakes before a working one (retry counters, caps)
     for version in ("2.0", "2.2"):
         for sends in ([[A, 0, 2]], [[A, 0, 2], [A, 1, 3]], [[A, 0, 2], [B, 0, 2]]):
